@@ -3,9 +3,12 @@ package e1
 import (
 	"bytes"
 	"fmt"
+	"strings"
 
 	"github.com/polynetwork/poly/common"
 	"github.com/polynetwork/poly/native/service/utils"
+
+	"polysim/kernel"
 )
 
 // recordKind describes one logical record kind of a native contract: its key prefix and the
@@ -76,4 +79,83 @@ func (s *Sim) checkKeys(t *TxTrace) {
 		}
 	}
 	_ = fmt.Sprint
+}
+
+// checkKeyCensus (C17, auxiliary static invariant): the build step generates a census of every
+// storage-key construction site (utils.ConcatKey) of the native contracts from the tree under
+// test (tools/overlay.d/keycensus, go/ast; prefix constants resolved to their values). Within
+// one contract, two different record kinds (different prefix constants) must not be able to
+// produce the same key:
+//   - equal prefix values, unless their parameter parts have provably different lengths;
+//   - one prefix extending another, when the shorter kind's parameter part has exactly the
+//     length of the extension plus the longer kind's parameter part (parameters are free bytes).
+//
+// This part of C17 is not simulation: it reaches the constructions of contracts no workload
+// drives (ripple, btc multisign, zilliqa, ...). Undecidable pairs are counted, not reported.
+func checkKeyCensus(r *kernel.Run) {
+	type kind struct {
+		contract, cpkg, cname, prefix string
+		lens                          map[int]bool
+		pos                           string
+	}
+	kinds := map[string]*kind{}
+	var order []string
+	for _, s := range utils.VerifKeyCensus {
+		if !s.Resolved {
+			r.Probe("census_site_unresolved_prefix")
+			continue
+		}
+		r.Probe("census_site")
+		id := s.Contract + "|" + s.ConstPkg + "|" + s.ConstName
+		k := kinds[id]
+		if k == nil {
+			k = &kind{contract: s.Contract, cpkg: s.ConstPkg, cname: s.ConstName, prefix: s.Prefix, lens: map[int]bool{}, pos: s.Pos}
+			kinds[id] = k
+			order = append(order, id)
+		}
+		k.lens[s.ParamLen] = true
+	}
+	for i, ia := range order {
+		a := kinds[ia]
+		for _, ib := range order[i+1:] {
+			b := kinds[ib]
+			if a.contract != b.contract {
+				continue
+			}
+			switch {
+			case a.prefix == b.prefix:
+				differ := !a.lens[-1] && !b.lens[-1]
+				if differ {
+					for l := range a.lens {
+						if b.lens[l] {
+							differ = false
+						}
+					}
+				}
+				if !differ {
+					r.Fail("C17", "ambiguous-key-layout", "contract %s: record kinds %s.%s (%s) and %s.%s (%s) use the same key prefix %q and their parameter parts are not provably of different length: equal parameters give the same storage key",
+						a.contract, a.cpkg, a.cname, a.pos, b.cpkg, b.cname, b.pos, a.prefix)
+				}
+			case strings.HasPrefix(b.prefix, a.prefix) || strings.HasPrefix(a.prefix, b.prefix):
+				sh, lg := a, b
+				if len(a.prefix) > len(b.prefix) {
+					sh, lg = b, a
+				}
+				ext := len(lg.prefix) - len(sh.prefix)
+				if sh.lens[-1] || lg.lens[-1] {
+					r.Probe("census_prefix_extension_undecided")
+				}
+				for ls := range sh.lens {
+					for ll := range lg.lens {
+						if ls >= 0 && ll >= 0 && ls == ext+ll {
+							r.Fail("C17", "ambiguous-key-layout", "contract %s: key %q + %d parameter bytes (%s.%s, %s) can equal key %q + %d parameter bytes (%s.%s, %s)",
+								sh.contract, sh.prefix, ls, sh.cpkg, sh.cname, sh.pos, lg.prefix, ll, lg.cpkg, lg.cname, lg.pos)
+						}
+					}
+				}
+				r.Probe("census_prefix_extension_pair_checked")
+			}
+			r.Probe("census_kind_pair_compared")
+		}
+	}
 }
